@@ -11,7 +11,7 @@ from protocol_code_generator.type.length import Length
 from protocol_code_generator.type.string_type import StringType
 from protocol_code_generator.type.struct_type import StructType
 from protocol_code_generator.util.docstring_utils import escape_docstring_text, generate_docstring
-from protocol_code_generator.util.number_utils import try_parse_int
+from protocol_code_generator.util.number_utils import is_decimal_integer, try_parse_int
 
 
 class FieldCodeGenerator:
@@ -132,7 +132,9 @@ class FieldCodeGenerator:
                 + "(must be a basic type)."
             )
 
-        if isinstance(field_type, IntegerType) and not self._hardcoded_value.isdigit():
+        if isinstance(field_type, IntegerType) and not is_decimal_integer(
+            self._hardcoded_value
+        ):
             raise RuntimeError(f'"{self._hardcoded_value}" is not a valid integer value.')
 
         if isinstance(field_type, BoolType) and self._hardcoded_value not in ("true", "false"):
@@ -150,7 +152,7 @@ class FieldCodeGenerator:
             return
 
         if (
-            not self._length_string.isdigit()
+            not is_decimal_integer(self._length_string)
             and self._length_string not in self._context.length_field_is_referenced_map
         ):
             raise RuntimeError(
@@ -434,7 +436,7 @@ class FieldCodeGenerator:
         if self._name is None:
             type_ = self._get_type()
             if isinstance(type_, IntegerType):
-                if self._hardcoded_value.isdigit():
+                if is_decimal_integer(self._hardcoded_value):
                     return self._hardcoded_value
                 raise RuntimeError(f'"{self._hardcoded_value}" is not a valid integer value.')
             elif isinstance(type_, BoolType):
@@ -563,14 +565,14 @@ class FieldCodeGenerator:
 
     def _get_serialize_length_expression(self):
         expression = self._length_string
-        if expression is not None and not expression.isdigit():
+        if expression is not None and not is_decimal_integer(expression):
             self._check_field_accessible(expression)
             expression = f'data._{expression}'
         return expression
 
     def _get_deserialize_length_expression(self):
         expression = self._length_string
-        if expression is not None and not expression.isdigit():
+        if expression is not None and not is_decimal_integer(expression):
             self._check_field_accessible(expression)
         return expression
 
